@@ -571,7 +571,10 @@ pub fn run_case(case: &ModelCase, wroot: &Path, flavour: Flavour, stats: &mut St
       }
     }
     // ---- kept readers keep their snapshot
-    if let Op::CheckReader { r } | Op::OpenReader { r } = op {
+    // (every second reader is not searched when it is opened: its first
+    // stored-field fetch then happens after whatever came in between)
+    let lazy_open = matches!(op, Op::OpenReader { r } if r % 2 == 1);
+    if let (Op::CheckReader { r } | Op::OpenReader { r }, false) = (op, lazy_open) {
       if let (Some(rd), Some(exp)) = (session.readers.get(r), reader_expect.get(r)) {
         match guarded(|| search_all(rd)) {
           Ok(obs) => match obs.to_contents() {
